@@ -332,7 +332,7 @@ func (c *monC13) End(m *Machine) *Violation { return nil }
 var kindsC13 = []wk{
 	{"login", 14}, {"totpvalidate", 6}, {"smsvalidate", 6}, {"totpsetup", 8}, {"totpconfirm", 6}, {"totpremove", 10}, {"smssetup", 8},
 	{"smsconfirm", 6}, {"smsremove", 10}, {"smsresend", 5}, {"regen", 1}, {"evstart", 8}, {"evend", 12}, {"newsess", 4}, {"logout", 3},
-	{"get", 6}, {"advance", 4}, {"snip:remember", 4}, {"snip:2fa", 6}, {"snip:enrol-totp", 2}, {"snip:enrol-sms", 2}, {"snip:settings", 14}, {"snip:rememberedpoke", 8}, {"snip:rec2fa", 6}, {"snip:evcarry", 8},
+	{"get", 6}, {"advance", 4}, {"snip:remember", 4}, {"snip:2fa", 6}, {"snip:enrol-totp", 2}, {"snip:enrol-sms", 2}, {"snip:settings", 14}, {"snip:rememberedpoke", 8}, {"snip:rec2fa", 6}, {"snip:evcarry", 8}, {"snip:smsrekey", 8},
 }
 
 var profC13 = profile{
